@@ -103,6 +103,9 @@ def inext(it, cell_or_iter):
         return inext(it, v.cell)
     if isinstance(v, Iter):
         return v.next(it)
+    if isinstance(v, Agg) and v.ty in ('Range', 'RangeInclusive'):
+        cell.v = v = into_iter(it, v)
+        return v.next(it)
     if isinstance(v, Agg) and v.ty:
         c = it.prog.traitimpl.get((v.ty, 'Iterator', 'next'))
         if c:
@@ -2047,6 +2050,15 @@ def _into_future(it, key, raw, args):
 def _fn_call(it, key, raw, args):
     f = args[0]
     a = args[1]
+    probe = f
+    while isinstance(probe, Ref):
+        probe = probe.cell.v
+    if probe is None and key is not None and len(key) > 4:
+        # a capture-less closure is zero-sized: MIR never initialises the local; its type names the body
+        import re as _re
+        m = _re.search(r'\{closure@([^}]*?)\}', key[4])
+        if m:
+            f = Closure(m.group(1))
     return it.call_value(f, [c.v for c in a.fields] if isinstance(a, Agg) else [])
 
 
@@ -2318,3 +2330,27 @@ def _f64_round(it, key, raw, args):
     import math
     x = args[0]
     return float(math.floor(abs(x) + 0.5)) * (1.0 if x >= 0 else -1.0)
+
+
+@model('<Cow as Deref>::deref', '<Cow as AsRef>::as_ref', '<Cow as Borrow>::borrow')
+def _cow_deref(it, key, raw, args):
+    c = deref(args[0])
+    if not (isinstance(c, Agg) and c.ty == 'Cow'):
+        return c
+    inner = c.f(0)
+    if c.variant == 0:          # Borrowed(&T)
+        return inner
+    if isinstance(inner, VecV):
+        return SliceRef(inner, 0, len(inner.cells))
+    if isinstance(inner, StrV):
+        return inner
+    return Ref(c.fields[0])
+
+
+@model('Cow::into_owned', '<Cow as ToOwned>::to_owned', 'Cow::to_vec')
+def _cow_into_owned(it, key, raw, args):
+    c = deref(args[0])
+    inner = c.f(0) if isinstance(c, Agg) and c.ty == 'Cow' else c
+    if isinstance(inner, SliceRef):
+        return VecV([Cell(deep_clone(x.v)) for x in inner.cells()])
+    return deep_clone(deref(inner))
